@@ -145,7 +145,7 @@ func selectFollowing(nodeSet NodeSet) Result {
 func appendFollowing(cursor store.Cursor, result []store.Cursor) []store.Cursor {
 	parent := cursor.Parent()
 
-	if parent.Pos() == 0 {
+	if cursor.Pos() == 0 {
 		return result
 	}
 
@@ -179,7 +179,7 @@ func selectFollowingSibling(nodeSet NodeSet) Result {
 func appendFollowingSibling(cursor store.Cursor, result []store.Cursor) []store.Cursor {
 	parent := cursor.Parent()
 
-	if parent.Pos() == 0 {
+	if cursor.Pos() == 0 {
 		return result
 	}
 
@@ -233,7 +233,7 @@ func selectPreceding(nodeSet NodeSet) Result {
 func appendPreceding(cursor store.Cursor, result []store.Cursor) []store.Cursor {
 	parent := cursor.Parent()
 
-	if parent.Pos() == 0 {
+	if cursor.Pos() == 0 {
 		return result
 	}
 
@@ -268,7 +268,7 @@ func selectPrecedingSibling(nodeSet NodeSet) Result {
 func appendPrecedingSibling(cursor store.Cursor, result []store.Cursor) []store.Cursor {
 	parent := cursor.Parent()
 
-	if parent.Pos() == 0 {
+	if cursor.Pos() == 0 {
 		return result
 	}
 
